@@ -565,13 +565,13 @@ def run_checked(ck, run, env, ca0, cipher_ok, curve_nid):
     ck.sample(prm[300][0])
 
     # sampled cross product incl. the extra certificate kinds, hosts, name sets, cuts
-    rs = [random_session(env, rng) for _ in range(ck.scale(600, 30000) * (4 if hard else 1))]
+    rs = [random_session(env, rng) for _ in range(ck.scale(600, 24000) * (4 if hard else 1))]
     nfail += run.par_compare(rs, "random-session", chunk=60, workers=12)
     ck.sample(rs[0][0])
 
     # (v) volume under hostile schedules
     nmax = ck.scale(300000, 1500000)
-    ds = [data_session(env, rng, nmax) for _ in range(ck.scale(60, 1500) * (4 if hard else 1))]
+    ds = [data_session(env, rng, nmax) for _ in range(ck.scale(60, 1000) * (4 if hard else 1))]
     nfail += run.par_compare(ds, "data", chunk=ck.scale(6, 20), workers=12)
     ck.sample(ds[0][0])
 
